@@ -2,6 +2,7 @@ package vvc
 
 import (
 	"fmt"
+	"math/rand"
 	"sort"
 	"strings"
 
@@ -34,12 +35,12 @@ func c33(c *rig.Ctx) {
 			return
 		}
 		r := c.SubRand("c33", i)
-		h := genWHist(r, fmt.Sprintf("c33_%d", i), whistOpts{MinCommits: 4, MaxCommits: 8, Indexes: true, Defaults: true, Hostile: r.Intn(2) == 0, Tags: true, Dirty: true})
+		h := genWHist(r, fmt.Sprintf("c33_%d", i), whistOpts{MinCommits: 4, MaxCommits: 8, Indexes: true, Defaults: true, Hostile: r.Intn(2) == 0, Tags: true, Dirty: true, TypeChange: true, UniqueIdx: true})
 		c.Case(fmt.Sprintf("c33/%d", i), map[string]any{"db": h.DB, "script": sqls(h.Steps)})
 		if i < 3 {
 			c.Sample(map[string]any{"script": sqls(h.Steps), "checked": "every commit x every table name x every access path"})
 		}
-		runC33(c, srv, h, st)
+		runC33(c, srv, h, st, c.SubRand("c33point", i))
 	})
 	st.flush(c)
 	for _, k := range []string{"c33.asof_hash", "c33.asof_branch", "c33.asof_tag", "c33.asof_ancestor_spec", "c33.revdb_hash", "c33.revdb_tag", "c33.use_revdb", "c33.history_commit_eq"} {
@@ -48,10 +49,13 @@ func c33(c *rig.Ctx) {
 	c.Require(st.get("c33.absent_table_reads") > 0, "no read of a table at a commit where it is absent")
 	c.Require(st.get("c33.reads_with_different_schema") > 0, "no read at a commit whose schema differs from the current one")
 	c.Require(st.get("c33.history_index_filters") > 0, "no index-assisted history filter")
+	c.Require(st.get("c33.point_asof_lookups") > 0 && st.get("c33.point_asof_lookups_schema_drift") > 0, "no AS OF point lookup at a commit whose schema differs from HEAD")
+	c.Require(st.get("c33.point_asof_lookups_warm_cache") > 0, "no AS OF point lookup after a HEAD point lookup of the same table in the same session")
+	c.Require(st.get("c33.point_asof_lookups_table_gone_at_head") > 1, "no AS OF point lookups of tables that were renamed/dropped since")
 	c.Require(st.get("c33.branch_working_differs_from_head") > 0, "no branch whose working set differs from its HEAD (AS OF branch vs working set would be indistinguishable)")
 }
 
-func runC33(c *rig.Ctx, srv *sqlrig.Server, h *whist, st *tally) {
+func runC33(c *rig.Ctx, srv *sqlrig.Server, h *whist, st *tally, pr *rand.Rand) {
 	x := srv.MustOpen("")
 	defer x.Close()
 	rig.Must(x.Exec("create database " + h.DB))
@@ -168,6 +172,7 @@ func runC33(c *rig.Ctx, srv *sqlrig.Server, h *whist, st *tally) {
 			k++
 		}
 	}
+	c33PointLookups(c, x, h, names, pr, st, viol)
 	// history tables, from a session on each branch
 	for br, tip := range h.Tips {
 		y := x
@@ -371,4 +376,159 @@ func clip(s []string) []string {
 		return append(append([]string(nil), s[:12]...), fmt.Sprintf("... %d more", len(s)-12))
 	}
 	return s
+}
+
+// c33PointLookups: point lookups (the analyzer's LookupForExpressions fast path) through AS OF and revision databases, in the
+// ONE long-lived session x, interleaved with point lookups of the HEAD version of the same tables so that every session-level
+// lookup cache is warm with the HEAD schema; commits are visited in PRNG order (twice), so caches filled by one historical
+// schema are met by another. Each returned row is compared by column name and value with the recorded row at that commit.
+func c33PointLookups(c *rig.Ctx, x *sqlrig.Session, h *whist, names []string, r *rand.Rand, st *tally, viol func(string, string, map[string]any)) {
+	headW := h.Dirty["main"]
+	warm := map[string]bool{}
+	// lookup runs q and compares the result with the model rows of tbl for the given pks (absent pk => no row).
+	dead := false // the driver drops the connection when it cannot parse a (corrupt) row: report that once, not every follow-up
+	lookup := func(path, q string, tbl *sqlrig.Table, ci int, pks []int64) {
+		if dead {
+			return
+		}
+		r, err := x.Query(q)
+		if err != nil && (strings.Contains(err.Error(), "connection is already closed") || strings.Contains(err.Error(), "bad connection")) {
+			dead = true
+			return
+		}
+		if tbl == nil {
+			if err == nil {
+				viol("c33/"+path+"/absent-table-readable", fmt.Sprintf("table does not exist at c%d but the point lookup succeeded with %d rows", ci, len(r.Data)), map[string]any{"query": q})
+			} else if !isNotFound(err) {
+				viol("c33/"+path+"/absent-table-error", fmt.Sprintf("table does not exist at c%d; expected 'table not found', got: %v", ci, err), map[string]any{"query": q})
+			}
+			return
+		}
+		if err != nil {
+			viol("c33/"+path+"/error", fmt.Sprintf("point lookup at c%d failed: %v", ci, err), map[string]any{"query": q})
+			return
+		}
+		wantCols := []string{"pk"}
+		for _, col := range tbl.Cols {
+			wantCols = append(wantCols, col.Name)
+		}
+		if g, w := strings.Join(r.Cols, ","), strings.Join(wantCols, ","); g != w {
+			viol("c33/"+path+"/columns", fmt.Sprintf("point lookup at c%d returned columns [%s], the table had [%s]", ci, g, w), map[string]any{"query": q})
+			return
+		}
+		var want []string
+		seen := map[int64]bool{}
+		for _, pk := range pks {
+			if row, ok := tbl.Rows[pk]; ok && !seen[pk] {
+				seen[pk] = true
+				want = append(want, fmt.Sprint(pk)+"\x1f"+strings.Join(row, "\x1f"))
+			}
+		}
+		sort.Strings(want)
+		if g, w := strings.Join(r.Sorted(), "\n"), strings.Join(want, "\n"); g != w {
+			viol("c33/"+path+"/rows", fmt.Sprintf("point lookup at c%d (columns %v): got %q, recorded rows %q", ci, wantCols, r.Sorted(), want), map[string]any{"query": q})
+		}
+	}
+	somePKs := func(t *sqlrig.Table) []int64 {
+		pks := t.PKs()
+		r.Shuffle(len(pks), func(i, j int) { pks[i], pks[j] = pks[j], pks[i] })
+		if len(pks) > 2 {
+			pks = pks[:2]
+		}
+		return append(pks, 7777) // 7777 is never a key
+	}
+	warmHead := func() {
+		for _, n := range headW.S.names() {
+			t := headW.S[n]
+			wp := somePKs(t)
+			if len(wp) > 2 {
+				wp = wp[:2]
+			}
+			for _, pk := range wp {
+				st.inc("c33.point_head_lookups")
+				lookup("point_head", fmt.Sprintf("select * from `%s` where pk = %d", n, pk), t, h.Tips["main"], []int64{pk})
+			}
+			warm[n] = true
+		}
+	}
+	tagOf := map[int]string{}
+	for tag, ci := range h.Tags {
+		tagOf[ci] = tag
+	}
+	order := append(r.Perm(len(h.Commits)), r.Perm(len(h.Commits))...)
+	for _, ci := range order {
+		warmHead()
+		cm := h.Commits[ci]
+		revs := []string{cm.Hash}
+		if tag, ok := tagOf[ci]; ok {
+			revs = append(revs, tag)
+		}
+		for br, tip := range h.Tips {
+			if tip == ci {
+				revs = append(revs, br)
+			}
+		}
+		for _, n := range names {
+			tbl := cm.W.S[n]
+			rev := revs[r.Intn(len(revs))]
+			count := func() {
+				st.inc("c33.point_asof_lookups")
+				if warm[n] {
+					st.inc("c33.point_asof_lookups_warm_cache")
+				}
+				if tbl != nil && headW.S[n] != nil && layout(tbl) != layout(headW.S[n]) {
+					st.inc("c33.point_asof_lookups_schema_drift")
+				}
+				if tbl != nil && headW.S[n] == nil {
+					st.inc("c33.point_asof_lookups_table_gone_at_head")
+				}
+			}
+			if tbl == nil {
+				count()
+				lookup("point_asof", fmt.Sprintf("select * from `%s` as of '%s' where pk = 0", n, rev), nil, ci, nil)
+				continue
+			}
+			pks := somePKs(tbl)
+			for _, pk := range pks {
+				count()
+				lookup("point_asof", fmt.Sprintf("select * from `%s` as of '%s' where pk = %d", n, rev, pk), tbl, ci, []int64{pk})
+			}
+			var in []string
+			for _, pk := range pks {
+				in = append(in, fmt.Sprint(pk))
+			}
+			count()
+			lookup("point_asof_in", fmt.Sprintf("select * from `%s` as of '%s' where pk in (%s)", n, rev, strings.Join(in, ",")), tbl, ci, pks)
+			st.inc("c33.point_revdb_lookups")
+			lookup("point_revdb", fmt.Sprintf("select * from `%s/%s`.`%s` where pk = %d", h.DB, rev, n, pks[0]), revdbTable(h, rev, tbl), ci, []int64{pks[0]})
+			// unique secondary key = v
+			for in, col := range cm.W.M[n].Idx {
+				if !strings.HasPrefix(in, "u") {
+					continue
+				}
+				for i, cc := range tbl.Cols {
+					if cc.Name != col {
+						continue
+					}
+					for _, pk := range pks {
+						if row, ok := tbl.Rows[pk]; ok && row[i] != sqlrig.Null {
+							st.inc("c33.point_asof_unique_key_lookups")
+							count()
+							lookup("point_asof_unique", fmt.Sprintf("select * from `%s` as of '%s' where `%s` = %s", n, rev, col, sqlrig.SQLLit(row[i])), tbl, ci, []int64{pk})
+							break
+						}
+					}
+				}
+			}
+			c.Distinct(fmt.Sprintf("point/%v/%v", headW.S[n] == nil, headW.S[n] != nil && layout(tbl) != layout(headW.S[n])))
+		}
+	}
+}
+
+// revdbTable: `db/<branch>` is the branch's working set, every other revision is the commit.
+func revdbTable(h *whist, rev string, committed *sqlrig.Table) *sqlrig.Table {
+	if d, ok := h.Dirty[rev]; ok {
+		return d.S[committed.Name]
+	}
+	return committed
 }
